@@ -92,8 +92,15 @@ Fixpoint cut_platform (first : bool) (l : list string) : list string :=
 
 Inductive src_res := SrcOk (name : string) (v : option V) | SrcRaise.
 
+(* for ext in (...): if filename.endswith(ext): filename = filename[:-len(ext)]; break *)
+Fixpoint strip_ext (exts : list string) (s : string) : string :=
+  match exts with
+  | [] => s
+  | e :: r => if ends_with e s then drop_last (String.length e) s else strip_ext r s
+  end.
+
 Definition parse_source (full : string) : src_res :=
-  let f1 := fold_left (fun acc e => remove_all e acc) src_exts full in
+  let f1 := strip_ext src_exts full in
   if String.eqb full f1 then SrcOk full None else
   let f2 := repl_char src_us_repl f1 in
   let dp := split_on src_dash f2 in
@@ -103,8 +110,12 @@ Definition parse_source (full : string) : src_res :=
   | Some vs =>
       let name := joinc src_dash (firstn vs dp) in
       let vstr := repl_char src_us_repl (joinc src_dash (skipn vs dp)) in
-      let vparts := cut_platform true (split_on "."%char vstr) in
-      SrcOk name (pv (joinc "."%char vparts))
+      (* version_str, plus, local_label = version_str.partition("+") *)
+      let pub := before_first src_local_sep vstr in
+      let tail := if has_char (is_ch src_local_sep) vstr
+                  then String src_local_sep (after_first src_local_sep vstr) else EmptyString in
+      let vparts := cut_platform true (split_on "."%char pub) in
+      SrcOk name (pv (joinc "."%char vparts ++ tail))
   end.
 
 (* ---- _tar_gz_filename_to_candidate ---- *)
